@@ -4,7 +4,11 @@ package c10
 import (
 	"fmt"
 	"go/ast"
+	"go/token"
+	"go/types"
 	"math"
+
+	"golang.org/x/tools/go/cfg"
 
 	"rscheck/cfgq"
 	"rscheck/core"
@@ -23,48 +27,114 @@ func (r *rs) lengthDomain(name string) {
 		return
 	}
 	g := cfgq.Of(c.Program, fn)
-	as, b := pat.Stmt("_n, _err = _d.decodeInt()").Find(info, fn.Decl.Body, nil)
-	if as == nil {
-		c.Undecidedf("R3.length", name+"/length", fn.Decl.Pos(), "cannot find `n, err := d.decodeInt()`")
+	decodeInt := r.method("Decoder", "decodeInt")
+	if decodeInt == nil {
 		return
 	}
-	n := flow.Obj(info, b["_n"])
-	from, ok := flow.PointOf(g, as)
-	if n == nil || !ok || flow.Assignments(info, fn.Decl.Body, n) != 1 {
-		c.Undecidedf("R3.length", name+"/length", as.Pos(), "the decoded length is not a single-assignment variable")
+	calls := flow.FindCalls(fn.Decl.Body, func(call *ast.CallExpr) bool { return core.CalleeFunc(info, call) == decodeInt.Obj })
+	if len(calls) != 1 {
+		c.Undecidedf("R3.length", name+"/length", fn.Decl.Pos(), "expected one call of decodeInt for the length, found %d", len(calls))
 		return
 	}
-	isN := flow.IsObj(info, n)
-	mentions := func(m ast.Node) bool { return core.Mentions(info, m, n) }
+	as := ast.Node(calls[0])
+	// path-sensitive walk: the decoded length is a token, every variable it is copied into holds it; its
+	// interval is refined by the comparisons with constants met on the path; what a return yields is read
+	// from what its result variables hold on that path
+	lenTok, errTok := fmt.Sprintf("call%p#0", calls[0]), fmt.Sprintf("call%p#1", calls[0])
+	raw := map[string][]flow.Interval{}
+	imprecise := false
 	var allocNode ast.Node
-	classify := func(m ast.Node) string {
+	var site allocSite // the allocation made for the decoded length
+	w := &flow.Sym{G: g}
+	w.Visit = func(m ast.Node, st *flow.SState) bool {
+		iv := st.IntervalOf(lenTok)
 		if ret, ok := m.(*ast.ReturnStmt); ok {
-			switch {
-			case flow.ErrReturn(info, fn.Decl.Body, ret):
-				return "error"
-			case len(ret.Results) == 2 && core.IsNil(info, ret.Results[0]) && core.IsNil(info, ret.Results[1]):
-				return "nil"
+			seen := false
+			for _, v := range st.Env {
+				if v.Tok == lenTok || v.Tok == errTok {
+					seen = true
+				}
 			}
-			return "other"
+			if !seen {
+				return true
+			}
+			label := "other"
+			if len(ret.Results) == 2 {
+				ev, vv := w.Eval(ret.Results[1], st), w.Eval(ret.Results[0], st)
+				switch {
+				case ev.Kind == flow.SNonNil || flow.ErrReturn(info, fn.Decl.Body, ret):
+					label = "error"
+				case ev.Kind == flow.SNil && vv.Kind == flow.SNil:
+					label = "nil"
+				}
+			}
+			raw[label] = append(raw[label], iv)
+			return true
 		}
-		hit := false
 		for _, call := range cfgq.ExecCalls(m) {
-			if flow.IsBuiltin(info, call, "make") && len(call.Args) >= 2 && mentions(call.Args[1]) {
-				hit = true
+			if !flow.IsBuiltin(info, call, "make") || len(call.Args) < 2 {
+				continue
+			}
+			for _, sz := range call.Args[1:] {
+				if !w.Holds(sz, st, lenTok) {
+					continue
+				}
+				site = allocSite{node: m, call: call, size: sz}
+				// a variable that holds the decoded length here: preferably one written in the size itself
+				core.Inspect(sz, func(x ast.Node) bool {
+					if id, ok := x.(*ast.Ident); ok {
+						if v, has := st.Env[core.ObjOf(info, id)]; has && v.Tok == lenTok {
+							site.holder = id
+						}
+					}
+					return true
+				})
+				if site.holder == nil {
+					for o, v := range st.Env {
+						if v.Tok == lenTok && site.holder == nil {
+							site.holder = ast.NewIdent(o.Name())
+							info.Uses[site.holder] = o
+						}
+					}
+				}
+				if as, ok := m.(*ast.AssignStmt); ok && len(as.Lhs) == 1 {
+					site.buf, _ = as.Lhs[0].(*ast.Ident)
+				}
+				allocNode = m
+				raw["alloc"] = append(raw["alloc"], iv)
+				return true
 			}
 		}
-		if hit {
-			allocNode = m
-			return "alloc"
-		}
-		return ""
+		return false
 	}
-	errEdge := flow.ErrEdge(g)
-	out, imprecise := flow.Outcomes(g, from, isN, mentions, classify, errEdge)
-	if imprecise {
+	w.Prune = func(st *flow.SState) bool {
+		for _, v := range st.Env {
+			if v.Tok == errTok && v.Kind == flow.SNonNil {
+				return true // decodeInt itself failed: not a statement about the length
+			}
+		}
+		return false
+	}
+	w.Unlearned = func(e ast.Expr, st *flow.SState) {
+		if w.Holds(e, st, lenTok) {
+			imprecise = true
+		}
+	}
+	w.Exit = func(blk *cfg.Block, st *flow.SState) {
+		if g.Exit(blk) == cfgq.ExitFall {
+			raw["fall"] = append(raw["fall"], st.IntervalOf(lenTok))
+		}
+	}
+	w.Run(nil)
+	if imprecise || w.Overflow {
 		c.Undecidedf("R3.length", name+"/length", as.Pos(), "the length is tested in a form other than a comparison with a constant")
 		return
 	}
+	out := map[string][]flow.Interval{}
+	for l, ivs := range raw {
+		out[l] = flow.Union(ivs)
+	}
+
 	inf, ninf := int64(math.MaxInt64), int64(math.MinInt64)
 	overlap := func(set []flow.Interval, lo, hi int64) *flow.Interval {
 		for _, v := range set {
@@ -96,73 +166,168 @@ func (r *rs) lengthDomain(name string) {
 	if len(out["fall"]) > 0 {
 		c.Undecidedf("R3.length", name+"/fall", as.Pos(), "control falls off the function")
 	}
-	// R5: n >= 0 returns the freshly made buffer
-	if allocNode == nil {
+	// R5: n >= 0 returns the freshly made buffer: on every successful path behind the allocation the value
+	// returned still is that allocation (itself, a slice of it, or what append made of it)
+	if allocNode == nil || site.holder == nil {
 		return
 	}
-	ap, _ := flow.PointOf(g, allocNode)
-	var valuePat *pat.Pattern
-	var ab pat.Binds
-	if name == "decodeBulkBytes" {
-		_, ab = pat.Stmt("_b = make([]byte, _n + _k)").Find(info, allocNode, pat.Binds{"_n": b["_n"]})
-		valuePat = pat.Stmt("return _b[:_n], nil")
-	} else {
-		_, ab = pat.Stmt("_b = make([]Resp, _n)").Find(info, allocNode, pat.Binds{"_n": b["_n"]})
-		valuePat = pat.Stmt("return _b, nil")
-	}
-	if ab == nil {
-		c.Undecidedf("R5.nil", name+"/fresh-buffer", allocNode.Pos(), "allocation %s not of the recognised form", c.Src(allocNode))
-		return
-	}
-	nret := 0
-	for _, p := range g.Points(func(m ast.Node) bool { _, ok := m.(*ast.ReturnStmt); return ok }) {
-		ret := p.Node().(*ast.ReturnStmt)
-		if flow.ErrReturn(info, fn.Decl.Body, ret) || g.Path(cfgq.Query{From: ap, After: true, Target: func(m ast.Node) bool { return m == ast.Node(ret) }, AvoidEdge: errEdge}) == nil {
-			continue
+	r.allocs[name] = site
+	makeTok := fmt.Sprintf("make%p", site.call)
+	verdicts := map[string]token.Pos{}
+	w2 := &flow.Sym{G: g}
+	w2.Visit = func(m ast.Node, st *flow.SState) bool {
+		ret, ok := m.(*ast.ReturnStmt)
+		if !ok {
+			return false
 		}
-		nret++
-		switch {
-		case valuePat.Match(info, ret, ab) != nil:
-			c.Okf("R5.nil", name+"/fresh-buffer", ret.Pos(), "n >= 0 returns the buffer made for it (never nil)")
-		case len(ret.Results) > 0 && core.IsNil(info, ret.Results[0]):
-			c.Failf("R5.nil", name+"/fresh-buffer", ret.Pos(), "after the allocation (n >= 0) the literal nil is returned without an error: an empty value decodes as nil")
+		made := false
+		for _, v := range st.Env {
+			if v.Tok == makeTok {
+				made = true
+			}
+		}
+		if !made || len(ret.Results) != 2 {
+			return true
+		}
+		if ev := w2.Eval(ret.Results[1], st); ev.Kind == flow.SNonNil || flow.ErrReturn(info, fn.Decl.Body, ret) {
+			return true
+		} else if ev.Kind != flow.SNil {
+			verdicts["unknown"] = ret.Pos()
+			return true
+		}
+		switch v := w2.Eval(ret.Results[0], st); {
+		case v.Tok == makeTok && v.Kind == flow.SNonNil:
+			verdicts["ok"] = ret.Pos()
+		case v.Kind == flow.SNil:
+			verdicts["nil"] = ret.Pos()
 		default:
-			// `return nil, err` with err possibly nil and similar
-			c.Undecidedf("R5.nil", name+"/fresh-buffer", ret.Pos(), "successful return %s after the allocation is not the recognised value", c.Src(ret))
+			verdicts["unknown"] = ret.Pos()
 		}
+		return true
 	}
-	if nret == 0 {
+	w2.Prune = w.Prune
+	w2.Run(nil)
+	switch {
+	case verdicts["nil"] != 0:
+		c.Failf("R5.nil", name+"/fresh-buffer", verdicts["nil"], "after the allocation (n >= 0) nil is returned without an error: an empty value decodes as nil")
+	case verdicts["unknown"] != 0 || w2.Overflow:
+		c.Undecidedf("R5.nil", name+"/fresh-buffer", verdicts["unknown"], "a successful return after the allocation does not provably yield the allocated buffer")
+	case verdicts["ok"] != 0:
+		c.Okf("R5.nil", name+"/fresh-buffer", verdicts["ok"], "n >= 0 returns the buffer made for it (never nil)")
+	default:
 		c.Undecidedf("R5.nil", name+"/fresh-buffer", allocNode.Pos(), "no successful return after the allocation")
 	}
 	if name == "decodeArray" {
-		r.arrayLoop(fn, g, ab)
+		r.arrayLoop(fn, g, site)
 	}
 }
 
 // arrayLoop: every element slot is filled exactly once by a nested decode (R6 reader side).
-func (r *rs) arrayLoop(fn *core.Fn, g *cfgq.Graph, ab pat.Binds) {
+func (r *rs) arrayLoop(fn *core.Fn, g *cfgq.Graph, site allocSite) {
 	c, info := r.c, r.info
+	decodeResp := r.method("Decoder", "decodeResp")
+	if decodeResp == nil || site.buf == nil {
+		c.Undecidedf("R6.grammar", "decodeArray/elements", fn.Decl.Pos(), "the element buffer is not bound to a variable")
+		return
+	}
+	calls := flow.FindCalls(fn.Decl.Body, func(call *ast.CallExpr) bool { return core.CalleeFunc(info, call) == decodeResp.Obj })
+	if len(calls) != 1 {
+		c.Undecidedf("R6.grammar", "decodeArray/elements", fn.Decl.Pos(), "expected one nested decode, found %d", len(calls))
+		return
+	}
+	call := calls[0]
 	var loop ast.Stmt
-	core.Inspect(fn.Decl.Body, func(m ast.Node) bool {
-		switch s := m.(type) {
-		case *ast.ForStmt:
-			b := pat.Stmt("_i = 0").Match(info, s.Init, ab)
-			if b != nil && s.Cond != nil && s.Post != nil && pat.Expr("_i < len(_b)").Match(info, s.Cond, b) != nil && pat.Stmt("_i++").Match(info, s.Post, b) != nil {
-				if n, _ := pat.Stmt("_b[_i], _e = _d.decodeResp(_x)").Find(info, s.Body, b); n != nil {
-					loop = s
+	path := core.PathTo(fn.Decl.Body, call)
+	for _, n := range path {
+		switch n.(type) {
+		case *ast.ForStmt, *ast.RangeStmt:
+			loop = n.(ast.Stmt)
+		}
+	}
+	arr := flow.Obj(info, site.buf)
+	isArr := flow.IsObj(info, arr)
+	lenIsN := len(site.call.Args) >= 2 && site.size == site.call.Args[1] // make([]T, n): len(a) == n from the start
+	// (a) the loop runs once per element, in index order
+	var idx types.Object
+	counted := false
+	switch l := loop.(type) {
+	case *ast.RangeStmt:
+		counted = isArr(l.X) && lenIsN
+		if l.Key != nil {
+			idx = flow.Obj(info, l.Key)
+		}
+	case *ast.ForStmt:
+		if as, ok := l.Init.(*ast.AssignStmt); ok && l.Cond != nil && l.Post != nil {
+			for i, lh := range as.Lhs {
+				if len(as.Lhs) == len(as.Rhs) && isConst(info, unconv(info, as.Rhs[i]), 0) {
+					if inc, ok := l.Post.(*ast.IncDecStmt); ok && inc.Tok == token.INC && pat.Same(info, inc.X, lh) {
+						idx = flow.Obj(info, lh)
+					}
 				}
 			}
-		case *ast.RangeStmt:
-			if pat.Same(info, s.X, ab["_b"]) && s.Key != nil {
-				if n, _ := pat.Stmt("_b[_i], _e = _d.decodeResp(_x)").Find(info, s.Body, pat.Binds{"_b": ab["_b"], "_i": s.Key}); n != nil {
-					loop = s
+			if idx != nil {
+				iid := ast.NewIdent(idx.Name())
+				info.Uses[iid] = idx
+				bounds := []lin.Form{lin.Of(info, site.holder)}
+				if lenIsN {
+					ln := ast.NewIdent("len")
+					info.Uses[ln] = types.Universe.Lookup("len")
+					aid := ast.NewIdent(arr.Name())
+					info.Uses[aid] = arr
+					bounds = append(bounds, lin.Of(info, &ast.CallExpr{Fun: ln, Args: []ast.Expr{aid}}))
+				}
+				if cmp, ok := lin.CmpOf(info, l.Cond, true); ok {
+					for _, bd := range bounds {
+						want := lin.Of(info, iid) // i - bound < 0
+						w := lin.Form{Coef: map[string]int64{}, Const: want.Const - bd.Const}
+						for k, v := range want.Coef {
+							w.Coef[k] += v
+						}
+						for k, v := range bd.Coef {
+							w.Coef[k] -= v
+							if w.Coef[k] == 0 {
+								delete(w.Coef, k)
+							}
+						}
+						counted = counted || cmp.Is(w, token.LSS)
+					}
 				}
 			}
 		}
-		return true
-	})
-	if loop == nil {
-		c.Undecidedf("R6.grammar", "decodeArray/elements", fn.Decl.Pos(), "cannot find the loop that decodes one element into each slot of the made array")
+	}
+	// (b) each element decoded lands in its slot: a[i] = decoded, or a = append(a, decoded)
+	stored := false
+	if loop != nil {
+		core.Inspect(loop, func(m ast.Node) bool {
+			as, ok := m.(*ast.AssignStmt)
+			if !ok {
+				return true
+			}
+			if len(as.Rhs) == 1 && ast.Unparen(as.Rhs[0]) == ast.Expr(call) && len(as.Lhs) >= 1 {
+				if ix, isIdx := ast.Unparen(as.Lhs[0]).(*ast.IndexExpr); isIdx && isArr(ix.X) && idx != nil && flow.IsObj(info, idx)(ix.Index) {
+					stored = true
+				}
+				if elem := flow.Obj(info, as.Lhs[0]); elem != nil {
+					core.Inspect(loop, func(x ast.Node) bool {
+						if ap, ok := x.(*ast.AssignStmt); ok && len(ap.Lhs) == 1 && len(ap.Rhs) == 1 && isArr(ap.Lhs[0]) {
+							if ac, ok := ast.Unparen(ap.Rhs[0]).(*ast.CallExpr); ok && flow.IsBuiltin(info, ac, "append") && len(ac.Args) == 2 && isArr(ac.Args[0]) && flow.IsObj(info, elem)(ac.Args[1]) && !lenIsN {
+								stored = true
+							}
+						}
+						if ap, ok := x.(*ast.AssignStmt); ok && len(ap.Lhs) == 1 && len(ap.Rhs) == 1 && flow.IsObj(info, elem)(ap.Rhs[0]) {
+							if ix, isIdx := ast.Unparen(ap.Lhs[0]).(*ast.IndexExpr); isIdx && isArr(ix.X) && idx != nil && flow.IsObj(info, idx)(ix.Index) {
+								stored = true
+							}
+						}
+						return true
+					})
+				}
+			}
+			return true
+		})
+	}
+	if loop == nil || !counted || !stored {
+		c.Undecidedf("R6.grammar", "decodeArray/elements", fn.Decl.Pos(), "cannot find the loop that decodes one element into each slot of the made array (loop found: %v, counts n: %v, stores in order: %v)", loop != nil, counted, stored)
 		return
 	}
 	c.Okf("R6.grammar", "decodeArray/elements", loop.Pos(), "each of the n slots is filled by one nested decode, in index order")
@@ -177,18 +342,23 @@ func (r *rs) r4() {
 	if fn := r.method("Decoder", "decodeBulkBytes"); fn != nil {
 		g := cfgq.Of(c.Program, fn)
 		r.cur = fn.Decl.Body
-		_, b := pat.Stmt("_n, _err = _d.decodeInt()").Find(info, fn.Decl.Body, nil)
+		// the buffer made for the decoded length was located by the length-domain walk (which knows, per
+		// path, which variable holds the decoded length)
 		var mk ast.Node
-		if b != nil {
-			mk, b = pat.Stmt("_b = make([]byte, _n + _k)").Find(info, fn.Decl.Body, pat.Binds{"_n": b["_n"]})
+		var b pat.Binds
+		site, found := r.allocs["decodeBulkBytes"]
+		if found && site.buf != nil && site.holder != nil {
+			mk, b = site.node, pat.Binds{"_b": site.buf, "_n": site.holder}
 		}
 		if mk == nil {
-			c.Undecidedf("R4.term", "decodeBulkBytes/buffer", fn.Decl.Pos(), "cannot find `b := make([]byte, n+k)`")
+			c.Undecidedf("R4.term", "decodeBulkBytes/buffer", fn.Decl.Pos(), "cannot find the buffer made for the decoded length")
 		} else {
-			k, isC := core.IntConst(info, b["_k"].(ast.Expr))
-			if !isC {
-				c.Undecidedf("R4.term", "decodeBulkBytes/buffer", mk.Pos(), "buffer slack %s is not a constant", c.Src(b["_k"]))
+			// size = length + k as linear forms
+			sz, ln := lin.Of(info, site.size), lin.Of(info, site.holder)
+			if !(lin.Form{Coef: sz.Coef}).Equal(lin.Form{Coef: ln.Coef}) {
+				c.Undecidedf("R4.term", "decodeBulkBytes/buffer", mk.Pos(), "buffer size %s is not the decoded length plus a constant", c.Src(site.size))
 			} else {
+				k := sz.Const - ln.Const
 				c.Check("R4.term", "decodeBulkBytes/buffer", mk.Pos(), k == 2, fmt.Sprintf("the bulk buffer must hold the payload plus exactly the 2 terminator bytes (found n+%d): otherwise the CR LF are not consumed with the value, or bytes of the next value are swallowed", k))
 			}
 			bobj := flow.Obj(info, b["_b"])
@@ -210,7 +380,7 @@ func (r *rs) r4() {
 						continue
 					}
 					k++
-					buf := flow.NewBuffer(info, fn.Decl.Body, bobj, mk.(*ast.AssignStmt).Rhs[0].(*ast.CallExpr).Args[1])
+					buf := flow.NewBuffer(info, fn.Decl.Body, bobj, site.size)
 					opq := flow.Opaque(g, buf.Understood, bobj)
 					for _, t := range []struct {
 						off  int64
@@ -318,12 +488,7 @@ func (r *rs) line(name string, returnsPrefix bool) {
 			rs, _ := ret.(*ast.ReturnStmt)
 			var val ast.Expr
 			if rs != nil && len(rs.Results) == 2 {
-				val = flow.Resolve(info, fn.Decl.Body, rs.Results[0])
-				if o := flow.Obj(info, val); o != nil {
-					if d := flow.ReachingDef(g, o, p); d != nil {
-						val = d
-					}
-				}
+				val = flow.ChaseDef(g, flow.Resolve(info, fn.Decl.Body, rs.Results[0]), p)
 			}
 			// the value is b[:len(b)-2]
 			okVal := false
@@ -353,40 +518,83 @@ func (r *rs) r5enc(name string) {
 	}
 	g := cfgq.Of(c.Program, fn)
 	v := param(info, fn, 0)
-	isV := flow.IsObj(info, v)
-	nilFact := func(want bool) func(cfgq.Fact) bool {
-		return func(f cfgq.Fact) bool {
-			isNil, ok := flow.NilCmp(info, f, isV)
-			return ok && isNil == want
+	if v == nil {
+		c.Undecidedf("R5.nil", name+"/arms", fn.Decl.Pos(), "no value parameter")
+		return
+	}
+	vid := ast.NewIdent(v.Name())
+	info.Uses[vid] = v
+	// per path: what is known about the value (nil / non-nil) when the length line is written, and what
+	// is written (-1, or len(value)) - whatever variables carry the two
+	type seen struct {
+		n, wrong, blind, opaque int
+		pos                     token.Pos
+	}
+	minus, length := &seen{}, &seen{}
+	other := token.NoPos
+	w := &flow.Sym{G: g}
+	w.Unlearned = func(e ast.Expr, st *flow.SState) {
+		if core.Mentions(info, e, v) {
+			st.Marks["opaque"] = flow.SVal{Kind: flow.SBool, B: true}
 		}
 	}
-	// a test of len(v) is understood: it cannot tell nil from empty, so it never establishes either fact
-	vlen := flow.NewBuffer(info, fn.Decl.Body, v, nil).Length
-	opq := flow.Opaque(g, func(f cfgq.Fact) bool {
-		_, ok := flow.NilCmp(info, f, isV)
-		return ok || flow.LinAbout(info, f, vlen)
-	}, v)
-	minus, length := 0, 0
-	for _, call := range flow.FindCalls(fn.Decl.Body, func(call *ast.CallExpr) bool {
-		return core.CalleeFunc(info, call) == encodeInt.Obj && len(call.Args) == 1
-	}) {
-		p, ok := flow.PointOf(g, call)
-		if !ok {
-			continue
+	w.Visit = func(m ast.Node, st *flow.SState) bool {
+		for _, call := range cfgq.ExecCalls(m) {
+			if core.CalleeFunc(info, call) != encodeInt.Obj || len(call.Args) != 1 {
+				continue
+			}
+			av, bv := w.Eval(call.Args[0], st), w.Eval(vid, st)
+			var rec *seen
+			want := flow.SNil
+			if av.Kind == flow.SInt && av.K == -1 {
+				rec = minus
+			} else if lc, ok := unconvNode(info, av.Src).(*ast.CallExpr); ok && flow.IsBuiltin(info, lc, "len") && len(lc.Args) == 1 && flow.IsObj(info, v)(lc.Args[0]) {
+				rec, want = length, flow.SNonNil
+			} else {
+				other = call.Pos()
+				continue
+			}
+			rec.n++
+			rec.pos = call.Pos()
+			switch {
+			case bv.Kind == want:
+			case bv.Kind == flow.SNil || bv.Kind == flow.SNonNil:
+				rec.wrong++
+			case st.Marks["opaque"].B:
+				rec.opaque++
+			default:
+				rec.blind++
+			}
 		}
-		arg := call.Args[0]
+		return false
+	}
+	w.Run(nil)
+	report := func(key string, rec *seen, detail string) {
 		switch {
-		case isConst(info, arg, -1):
-			minus++
-			r.guard("R5.nil", name+"/minus-one-iff-nil", call.Pos(), g, p, nilFact(true), opq, "length -1 may be written only when the value == nil: a non-nil empty value must be written with length 0 or it decodes as nil")
-		case lenOf(info, fn.Decl.Body, arg) == v && v != nil:
-			length++
-			r.guard("R5.nil", name+"/length-iff-non-nil", call.Pos(), g, p, nilFact(false), opq, "len(value) may be written only when the value != nil: a nil value must be written as -1 or it decodes as empty")
+		case rec.n == 0:
+		case rec.wrong+rec.blind > 0:
+			c.Check("R5.nil", name+"/"+key, rec.pos, false, detail)
+		case rec.opaque > 0 || w.Overflow:
+			c.Undecidedf("R5.nil", name+"/"+key, rec.pos, "the value is tested in a form that is not understood; required: %s", detail)
 		default:
-			c.Undecidedf("R5.nil", name+"/length", call.Pos(), "length argument %s not recognised", c.Src(arg))
+			c.Check("R5.nil", name+"/"+key, rec.pos, true, detail)
 		}
 	}
-	if minus != 1 || length != 1 {
-		c.Undecidedf("R5.nil", name+"/arms", fn.Decl.Pos(), "expected one encodeInt(-1) and one encodeInt(len(v)), found %d and %d", minus, length)
+	report("minus-one-iff-nil", minus, "length -1 may be written only when the value == nil: a non-nil empty value must be written with length 0 or it decodes as nil")
+	report("length-iff-non-nil", length, "len(value) may be written only when the value != nil: a nil value must be written as -1 or it decodes as empty")
+	if other != token.NoPos {
+		c.Undecidedf("R5.nil", name+"/length", other, "a length line is written whose value is neither -1 nor len(value)")
 	}
+	if minus.n == 0 || length.n == 0 {
+		c.Undecidedf("R5.nil", name+"/arms", fn.Decl.Pos(), "expected paths writing -1 and paths writing len(value), found %d and %d", minus.n, length.n)
+	}
+}
+
+// unconvNode strips conversions from an expression node (nil-safe).
+func unconvNode(info *types.Info, n ast.Node) ast.Node {
+	e, ok := n.(ast.Expr)
+	if !ok || e == nil {
+		return n
+	}
+	return unconv(info, e)
 }
